@@ -51,6 +51,43 @@ end
 def strictDescendants : Tree → List Nat
   | .node _ cs => allPidsList cs
 
+/-! ## process groups and sessions
+
+A descendant may leave the process group / session it was born into (`setsid`,
+`setpgid`, `start_new_session=True`, coreutils `timeout`). Parent links are not
+affected by that, group membership is. -/
+
+/-- a process tree in which a node may be the leader of a process group of its own -/
+inductive GTree where
+  | node (pid : Nat) (leader : Bool) (children : List GTree)
+deriving Repr
+
+mutual
+/-- forget the groups: the tree that `pgrep -P` walks -/
+def GTree.forget : GTree → Tree
+  | .node p _ cs => .node p (forgetList cs)
+def forgetList : List GTree → List Tree
+  | [] => []
+  | c :: cs => c.forget :: forgetList cs
+end
+
+mutual
+/-- the members of the group a node was born into, found below it: descend, but not into
+subtrees whose root leads a group of its own (what `pgrep -g <root>` would list for a root
+that leads its group, minus the root) -/
+def groupBelow : GTree → List Nat
+  | .node _ _ cs => groupBelowList cs
+def groupBelowList : List GTree → List Nat
+  | [] => []
+  | .node _ true _ :: cs => groupBelowList cs
+  | .node p false cs' :: cs => p :: (groupBelowList cs' ++ groupBelowList cs)
+end
+
+/-- a kill list built from one process-group query instead of the parent links -/
+def killListByGroup (t : GTree) : List Nat :=
+  match t with
+  | .node p _ _ => p :: groupBelow t
+
 /-! ## the kill channel with denoise (`uses_sudo`) -/
 
 mutual
